@@ -41,3 +41,37 @@ Proof.
   assert (Hv : src_valid (SrcJson witness_cfg) = true) by (vm_compute; reflexivity).
   destruct (H Hv) as [H1 _]. vm_compute in H1. inversion H1.
 Qed.
+
+(* ------------------------------------------------------------------ *)
+(** * The loader before fixes/C20-config-read-as-utf8.patch
+
+    [open(config_path, "r")] decoded the file with the PROCESS LOCALE's
+    encoding.  JSON text is UTF-8 (RFC 8259), and in the main model
+    [SrcJson cfg] means "the file holds the UTF-8 JSON text of [cfg]" whatever
+    the locale.  Before the patch a file with a raw non-ASCII character read
+    under a non-UTF-8 locale raised UnicodeDecodeError (a ValueError) — or, under
+    an 8-bit code page, was silently decoded to different strings.  The first
+    behaviour is modelled here; the second cannot be exhibited with the locales
+    installed on the verification host. *)
+Inductive locale_enc : Type := LocUtf8 | LocAscii.
+Inductive file_bytes : Type := AsciiOnly | RawNonAscii.
+
+Definition load_config_prefix (loc : locale_enc) (fb : file_bytes) (src : source) (name : str) : result dyn :=
+  match loc, fb, src with
+  | LocAscii, RawNonAscii, SrcJson _ => Err EValue        (* UnicodeDecodeError <: ValueError *)
+  | _, _, _ => load_config src name
+  end.
+
+Definition C20_loader_prefix_statement : Prop :=
+  forall loc fb src name, Spec_load src name (load_obs_of (load_config_prefix loc fb src name)).
+
+(** {"mcpServers": {"a": {"command": "x", "args": ["é"]}}} written as raw UTF-8, ASCII locale. *)
+Definition witness_cfg_utf8 : json :=
+  JObj [ (k_mcpServers, JObj [ ([97], JObj [ (k_command, JStr [120]); (k_args, JArr [JStr [233]]) ]) ]) ].
+
+Theorem C20_loader_prefix_refuted : ~ C20_loader_prefix_statement.
+Proof.
+  intro H. specialize (H LocAscii RawNonAscii (SrcJson witness_cfg_utf8) [97]).
+  simpl in H. assert (Hv : valid_config witness_cfg_utf8 = true) by (vm_compute; reflexivity).
+  specialize (H Hv). vm_compute in H. destruct H as [p [t [E _]]]. discriminate.
+Qed.
